@@ -914,7 +914,7 @@ def r4_writer_reader(run):
 # ---------------------------------------------------------------------------
 
 def r6_range(run):
-    from .c09_helpers import branch_facts, node_of
+    from .c09_helpers import UNK, branch_facts, ceval, node_of
     p = run.project
     f = p.func(WSGI_REQ + '.range')
     cfg = cfg_of(f, p)
@@ -934,6 +934,12 @@ def r6_range(run):
     def role(e, depth=0) -> Optional[str]:
         """'F' = int(first), 'L' = int(last), '-L' = -int(last), '-1'"""
         if depth > 4:
+            return None
+        if isinstance(e, ast.Name) and e.id not in (first, last, sepname):
+            # a local bound once (`n = int(last)` ... `(-n, -1)`): read through it
+            vals = asg.get(e.id) or []
+            if len(vals) == 1 and vals[0] is not None:
+                return role(vals[0], depth + 1)
             return None
         if isinstance(e, ast.Call) and isinstance(e.func, ast.Name) and e.func.id == 'int' and len(e.args) == 1 and isinstance(e.args[0], ast.Name):
             return {first: 'F', last: 'L'}.get(e.args[0].id)
@@ -966,6 +972,7 @@ def r6_range(run):
 
     # tuple assignments of (first_num, last_num)
     n_found = 0
+    cells_seen = set()
     for n in walk_no_nested(f.node):
         if not (isinstance(n, ast.Assign) and isinstance(n.targets[0], ast.Tuple) and isinstance(n.value, ast.Tuple)
                 and len(n.value.elts) == 2 and len(n.targets[0].elts) == 2):
@@ -976,18 +983,34 @@ def r6_range(run):
         nid = node_of(cfg, n)
         fc = facts(nid)
         n_found += 1
-        if fc.get('first') is True and fc.get('last') is True:
-            want = ('F', 'L')
-        elif fc.get('first') is True:
-            want = ('F', '-1')
-        elif fc.get('last') is True:
-            want = ('-L', '-1')
-        else:
-            raise UnknownIdiom('Request.range: offsets assigned under unrecognised guards %s' % fc)
+        # decision table: the guards that dominate the assignment are evaluated over the four cells
+        # (first-pos given?, last-pos / suffix given?) with the "-" present; the order and the polarity the chain of
+        # tests is written in do not matter, only the cell the assignment is reached in
+        cells = []
+        for fe, le in ((True, True), (True, False), (False, True), (False, False)):
+            env = {first: fe, last: le, sepname: True}
+            reached = True
+            for test, truth in branch_facts(cfg, nid):
+                r = ceval(test, env)
+                if r is UNK:
+                    if {x.id for x in walk_self(test) if isinstance(x, ast.Name)} & {first, last}:
+                        raise UnknownIdiom('Request.range: offsets assigned under unrecognised guards %s (test %s)' % (fc, short(test)))
+                    continue
+                if bool(r) != truth:
+                    reached = False
+                    break
+            if reached:
+                cells.append((fe, le))
+        if len(cells) != 1 or cells[0] == (False, False):
+            raise UnknownIdiom('Request.range: offsets assigned under unrecognised guards %s (reached with (first given, last given) in %s)' % (fc, cells))
+        cell = cells[0]
+        cells_seen.add(cell)
+        want = {(True, True): ('F', 'L'), (True, False): ('F', '-1'), (False, True): ('-L', '-1')}[cell]
         run.check(roles == want, 'Range: with %s present the offsets are %s (RFC 9110 14.1.2: first-last / first- / -suffix)' % (
-            ' and '.join(k for k in ('first', 'last') if fc.get(k)), want), f, n)
-    if n_found < 3:
-        raise AnchorError('Request.range: expected three offset assignments, found %d' % n_found)
+            ' and '.join(k for k, on in zip(('first', 'last'), cell) if on), want), f, n)
+    if n_found < 3 or len(cells_seen) < 3:
+        raise AnchorError('Request.range: expected three offset assignments (first-last, first-, -suffix), found %d for the cells %s' % (
+            n_found, sorted(cells_seen)))
     # comparisons between the converted offsets
     names_of_roles: Dict[str, str] = {}
     for n in walk_no_nested(f.node):
@@ -1065,6 +1088,52 @@ def r6_range(run):
     u = p.func(WSGI_REQ + '.range_unit')
     run.use(u)
     ok_unit = False
+    uasg = assignments(u)
+
+    def first_eq_index(e, base: str, depth=0) -> Optional[str]:
+        """e denotes the position of an '=' in `base`: 'first' (<base>.index('=') / .find('=')), 'last' (rindex / rfind),
+        also through a local bound once; None: something else."""
+        if isinstance(e, ast.Name) and depth < 3:
+            vals = uasg.get(e.id) or []
+            return first_eq_index(vals[0], base, depth + 1) if len(vals) == 1 and vals[0] is not None else None
+        if isinstance(e, ast.Call) and isinstance(e.func, ast.Attribute) and isinstance(e.func.value, ast.Name) and e.func.value.id == base \
+                and len(e.args) == 1 and not e.keywords and isinstance(e.args[0], ast.Constant) and e.args[0].value == '=':
+            return {'index': 'first', 'find': 'first?', 'rindex': 'last', 'rfind': 'last'}.get(e.func.attr)
+        return None
+
+    ucfg = None
+    for r in [x for x in walk_no_nested(u.node) if isinstance(x, ast.Return) and x.value is not None]:
+        v = r.value
+        if isinstance(v, ast.Name):
+            vals = uasg.get(v.id) or []
+            if len(vals) == 1 and vals[0] is not None:
+                v = vals[0]
+        # <value>[:<value>.index('=')]: the text before the first '=' written as a slice
+        if isinstance(v, ast.Subscript) and isinstance(v.value, ast.Name) and isinstance(v.slice, ast.Slice) and v.slice.step is None \
+                and v.slice.upper is not None and (v.slice.lower is None or (isinstance(v.slice.lower, ast.Constant) and v.slice.lower.value == 0)):
+            which = first_eq_index(v.slice.upper, v.value.id)
+            if which is None:
+                continue
+            if which == 'first?':
+                # find() answers -1 for "no '='": only under a guard that there is one
+                ucfg = ucfg or cfg_of(u, p)
+                base = v.value.id
+                guarded = any(implied(test, truth, lambda e: isinstance(e, ast.Compare) and len(e.ops) == 1 and isinstance(e.ops[0], ast.In)
+                                      and isinstance(e.left, ast.Constant) and e.left.value == '=' and isinstance(e.comparators[0], ast.Name)
+                                      and e.comparators[0].id == base) is True
+                              for test, truth in branch_facts(ucfg, node_of(ucfg, r)))
+                if not guarded:
+                    raise UnknownIdiom('Request.range_unit: %s without a dominating `"=" in %s` test' % (short(v), base))
+                which = 'first'
+            ok_unit = True
+            run.check(which == 'first', 'range_unit is what precedes the first "="', u, r, runtime_witness="Range: a=b=0-1 has the unit 'a=b'")
+        # <value>.split('=', 1)[0] / .split('=')[0]
+        elif isinstance(v, ast.Subscript) and isinstance(v.slice, ast.Constant) and v.slice.value == 0 and isinstance(v.value, ast.Call) \
+                and isinstance(v.value.func, ast.Attribute) and v.value.func.attr in ('split', 'rsplit') and v.value.args \
+                and isinstance(v.value.args[0], ast.Constant) and v.value.args[0].value == '=' and not v.value.keywords:
+            ok_unit = True
+            run.check(v.value.func.attr == 'split' or len(v.value.args) == 1, 'range_unit is what precedes the first "="', u, r,
+                      runtime_witness="Range: a=b=0-1 has the unit 'a=b'")
     for n in walk_no_nested(u.node):
         if (isinstance(n, ast.Assign) and isinstance(n.value, ast.Call) and isinstance(n.value.func, ast.Attribute)
                 and n.value.func.attr == 'partition' and n.value.args and isinstance(n.value.args[0], ast.Constant)
@@ -1176,10 +1245,13 @@ def r7_forwarded_case(run):
     (either in the store itself, or to a local re-bound where the pair is known
     to be the scheme pair).
     W: `Forwarded: for=_SEVKISEK` -> req.forwarded[0].src == '_sevkisek'."""
-    from .c09_helpers import branch_facts, node_of
+    from .c09_helpers import branch_facts, inline_stmt_helpers, node_of
     p = run.project
     f = p.func(_FWD_PARSER)
     run.use(f)
+    # the block that files a pair under by/for/host/proto may live in a plain module-level helper called as a statement
+    # (`_set_forwarded_param(parsed_element, name, value)`): the parser is read with the helper's statements in place
+    f = inline_stmt_helpers(p, f)
     parent = enclosing_map(f.node)
     name_vars = _fwd_name_vars(f)
     calls = [c for c in walk_self(f.node) if isinstance(c, ast.Call) and isinstance(c.func, ast.Attribute) and c.func.attr in _CASE_CHANGERS]
